@@ -431,30 +431,22 @@ def mdLine (st : MdSt) (line0 : Str) : MdSt :=
 def mdStructure (t : Str) : List (Option Str × Option (List MdRow)) :=
   ((splitOnChar '\n' t).foldl mdLine ⟨.none, .none, []⟩).sheets
 
-/-- `{arr[0][i]: v for i, v in enumerate(row) if v not in {None, ""}}`: `arr[0][i]` raises IndexError
-for a non-empty cell beyond the header row. -/
-def mdRowDict : MdRow → MdRow → KRow → Except Err KRow
-  | _, [], acc => .ok acc
-  | hs, .none :: vs, acc => mdRowDict hs.tail vs acc
-  | [], some _ :: _, _ => .error .indexError
+/-- `{arr[0][i]: v for i, v in enumerate(row[:n_cols]) if v not in {None, ""}}` with
+`n_cols = len(arr[0])`: cells beyond the header row have no column name and are ignored. -/
+def mdRowDict : MdRow → MdRow → KRow → KRow
+  | [], _, acc => acc
+  | _ :: _, [], acc => acc
+  | _ :: hs, .none :: vs, acc => mdRowDict hs vs acc
   | h :: hs, some v :: vs, acc => mdRowDict hs vs (dset h v acc)
 
-def mdRows (hdr : MdRow) : List MdRow → Except Err (List KRow)
-  | [] => .ok []
-  | r :: rest => match mdRowDict hdr r [] with
-    | .error e => .error e
-    | .ok d => match mdRows hdr rest with
-      | .error e => .error e
-      | .ok ds => .ok (d :: ds)
+def mdRows (hdr : MdRow) (rows : List MdRow) : List KRow := rows.map fun r => mdRowDict hdr r []
 
-/-- `list_to_dicts(contents)` and `_list_to_dict_list(contents[0])` (596-600, 612-620) -/
-def mdSheet (key : Str) (contents : List MdRow) (b : Book) : Except Err Book :=
+/-- `list_to_dicts(contents)` and `header_of(contents)` (md_to_dict): a sheet without any row has no
+rows and an empty header list. -/
+def mdSheet (key : Str) (contents : List MdRow) (b : Book) : Book :=
   match contents with
-  | [] => .error .indexError
-  | hdr :: rows =>
-    match mdRows hdr rows with
-    | .error e => .error e
-    | .ok ds => .ok (dset (key ++ headerSuffix) (.header (l2dl (hdr.map optStr))) (dset key (.rows ds) b))
+  | [] => dset (key ++ headerSuffix) (.header []) (dset key (.rows []) b)
+  | hdr :: rows => dset (key ++ headerSuffix) (.header (l2dl (hdr.map optStr))) (dset key (.rows (mdRows hdr rows)) b)
 
 /-- the loop of `process_md_data` (605-620) -/
 def mdProcess (single : Bool) : List (Option Str × Option (List MdRow)) → Book → Except Err Book
@@ -465,20 +457,16 @@ def mdProcess (single : Bool) : List (Option Str × Option (List MdRow)) → Boo
     if !isAscii nm then .error .unsupported else
     let b1 := dset sheetNamesKey (.names (bookNames b ++ [nm])) b
     let low := lowerAscii nm
-    if supported.contains low then
-      match mdSheet low contents b1 with
-      | .error e => .error e
-      | .ok b2 => mdProcess single rest b2
-    else if single then
-      match mdSheet surveyKey contents b1 with
-      | .error e => .error e
-      | .ok b2 => mdProcess single rest b2
+    if supported.contains low then mdProcess single rest (mdSheet low contents b1)
+    else if single then mdProcess single rest (mdSheet surveyKey contents b1)
     else mdProcess single rest b1
 
 /-- `md_to_dict` (595-630) on the decoded text -/
 def mdToDict (t : Str) : Except Err Book :=
   if !isMarkdownTable t then .error .readError else
   let ss := mdStructure t
+  -- pipes but no table row: "not Markdown" (PyXFormError → PyXFormReadError, the next parser is tried)
+  if ss.isEmpty then .error .readError else
   mdProcess (ss.length = 1) ss [(sheetNamesKey, .names [])]
 
 /-! ## abstract workbooks and their renderings -/
@@ -529,10 +517,14 @@ def FileType.ofSuffix (s : Str) : Option FileType :=
   else if s = ".csv".toList then some .csv else .none
 
 /-- How a definition reaches `convert`: an existing file (`str` / `PathLike`: stem and suffix of the
-name), `bytes`, `BytesIO`, an open binary file, or `str` text that is not a file name. -/
+name), `bytes`, a `BytesIO` whose stream position is `pos`, an open binary file at position `pos`, or
+`str` text that is not a file name. -/
 inductive Channel
   | path (stem suffix : Str)
-  | bytes | bytesIO | file | text
+  | bytes
+  | bytesIO (pos : Nat)
+  | file (pos : Nat)
+  | text
   deriving Repr, DecidableEq
 
 /-- `Definition` (709-713): `(data, file_type, file_path_stem)` -/
@@ -542,11 +534,14 @@ structure Definition where
   stem : Option Str
   deriving Repr, DecidableEq
 
-/-- `get_definition_data` (753-809): every channel is normalised to the same `BytesIO`; only a path
-adds a suffix hint and a stem. -/
+/-- `get_definition_data` (753-809): every channel is normalised to a `BytesIO`; only a path adds a
+suffix hint and a stem.  A caller's `BytesIO` is passed through as it is and the readers use
+`getvalue()` / zip seeking, so its position does not matter; any other stream is copied with
+`definition.read()`, i.e. from its current position. -/
 def getDefinitionData (ch : Channel) (content : Str) : Definition :=
   match ch with
   | .path stem suffix => ⟨content, FileType.ofSuffix suffix, some stem⟩
+  | .file pos => ⟨content.drop pos, .none, .none⟩
   | _ => ⟨content, .none, .none⟩
 
 /-- processors in the order of `SupportedFileTypes.get_processors()` (regenerated table) -/
@@ -564,15 +559,14 @@ def tryParsers (bin : FileType → Str → Except Err Book) (d : Str) : List Fil
     | .error .readError => tryParsers bin d ts
     | r => r
 
-/-- the field names of `DefinitionData` that `**book` may supply (`fallback_form_name` is passed
-separately: a second one is a TypeError too) -/
+/-- the field names of `DefinitionData` that the parsed book may supply (`fallback_form_name` is passed
+separately and filtered out) -/
 def definitionFields : List Str :=
   (Gen.definitionDataFields.map String.toList).filter (· ≠ "fallback_form_name".toList)
 
-/-- `DefinitionData(fallback_form_name=…, **book)`: an unknown key (or a second
-`fallback_form_name`) is a TypeError. -/
-def toDefinition (b : Book) : Except Err Book :=
-  if b.all fun (k, _) => definitionFields.contains k then .ok b else .error .typeError
+/-- `{k: v for k, v in book.items() if k in fields}` before `DefinitionData(fallback_form_name=…, **data)`:
+sheets that have nothing to do with XLSForm are dropped. -/
+def toDefinition (b : Book) : Book := b.filter fun (k, _) => definitionFields.contains k
 
 /-- `get_xlsform` / `definition_to_dict` (716-750, 812-823): explicit `file_type` wins over the
 suffix hint; the result is the parsed book together with `fallback_form_name`. -/
@@ -583,8 +577,6 @@ def getXlsform (bin : FileType → Str → Except Err Book) (ch : Channel) (cont
   let types := match ft with | some t => [t] | .none => allTypes
   match tryParsers bin d.data types with
   | .error e => .error e
-  | .ok b => match toDefinition b with
-    | .error e => .error e
-    | .ok b => .ok (b, d.stem)
+  | .ok b => .ok (toDefinition b, d.stem)
 
 end Pyxv.Backends
